@@ -89,9 +89,12 @@ enum Patcher {
     /// as `Stream(None)`, the old content behind a reader that hands out at most n bytes per
     /// `read` call (what `Read` allows and segmented or network-backed stores do)
     StreamShort(usize),
+    /// the streaming patcher over a reader that is not at offset 0 when it is handed over (the caller
+    /// read a prefix, or reuses the handle); `usize::MAX` = positioned at the end
+    StreamAt(usize),
 }
 
-const PATCHERS: [Patcher; 11] = [
+const PATCHERS: [Patcher; 14] = [
     Patcher::Memory,
     Patcher::Parsed,
     Patcher::Stream(None),
@@ -103,6 +106,9 @@ const PATCHERS: [Patcher; 11] = [
     Patcher::StreamParts,
     Patcher::StreamShort(1),
     Patcher::StreamShort(509),
+    Patcher::StreamAt(1),
+    Patcher::StreamAt(7),
+    Patcher::StreamAt(usize::MAX),
 ];
 
 impl Patcher {
@@ -113,6 +119,7 @@ impl Patcher {
             Patcher::Stream(_) => "streaming",
             Patcher::StreamParts => "streaming-parts",
             Patcher::StreamShort(_) => "streaming-short-reads",
+            Patcher::StreamAt(_) => "streaming-reader-not-at-offset-0",
         }
     }
 
@@ -120,7 +127,7 @@ impl Patcher {
     fn site(self) -> &'static str {
         match self {
             Patcher::Memory | Patcher::Parsed => "in-memory-patcher",
-            Patcher::Stream(_) | Patcher::StreamParts | Patcher::StreamShort(_) => "streaming-patcher",
+            Patcher::Stream(_) | Patcher::StreamParts | Patcher::StreamShort(_) | Patcher::StreamAt(_) => "streaming-patcher",
         }
     }
 }
@@ -159,6 +166,12 @@ fn run_patcher(p: Patcher, old: &[u8], patch: &[u8]) -> Result<Vec<u8>, String> 
         Patcher::StreamShort(n) => {
             let h = ZbsdiffHeader::parse_from_patch(patch).map_err(|e| e.to_string())?;
             ZbsdiffPatcher::new(ShortReads { inner: Cursor::new(old), max: n.max(1) }, h.output_size as usize).apply_patch_from_data(patch).map_err(|e| e.to_string())
+        }
+        Patcher::StreamAt(k) => {
+            let h = ZbsdiffHeader::parse_from_patch(patch).map_err(|e| e.to_string())?;
+            let mut c = Cursor::new(old);
+            c.set_position(k.min(old.len()) as u64);
+            ZbsdiffPatcher::new(c, h.output_size as usize).apply_patch_from_data(patch).map_err(|e| e.to_string())
         }
         Patcher::StreamParts => {
             let z = ZbsDiff::parse(patch).map_err(|e| e.to_string())?;
@@ -341,6 +354,9 @@ fn check_generated(old: &[u8], new: &[u8], builder: Builder, block: Option<usize
         .class_if(triples.iter().any(|t| t.2 < 0), "patch:negative-seek")
         .class_if(triples.iter().any(|t| t.2 > 0), "patch:positive-seek")
         .class_if(new.len() > 4096, "new>4KiB")
+        .class_if(triples.len() > 65_536, "patch:>65536-control-entries")
+        .class_if(parts.diff.len() >= 3 << 20 && parts.diff.iter().all(|&b| b == 0), "patch:diff-block->=3MiB-of-zeros")
+        .class_if(parts.extra.len() >= 8_000_000 && parts.extra.iter().all(|&b| b == 0), "patch:extra-block->=8MB-of-zeros")
 }
 
 // ---------------------------------------------------------------- content
@@ -515,6 +531,44 @@ struct BigCase {
     new_len: usize,
     builder: Builder,
     seed: u64,
+}
+
+/// Inputs far larger than a test uses: blocks that deflate better than 1000:1, control blocks
+/// with tens of thousands of entries.
+#[derive(Debug, Clone, Serialize, Deserialize)]
+struct LargeCase {
+    /// 0: new = old (incompressible) with one byte changed in the middle; 1: old = 100 bytes, new =
+    /// `size` zero bytes; 2: new = old with its first byte changed (the chunked builder never
+    /// finds its way back: one entry per 256 bytes); 3: new = old + a short appended record (one
+    /// entry per block of the chunked builder)
+    kind: u8,
+    size: usize,
+    builder: Builder,
+    block: Option<usize>,
+    seed: u64,
+}
+
+impl LargeCase {
+    fn pair(&self) -> (Vec<u8>, Vec<u8>) {
+        match self.kind {
+            1 => (symbols(4, self.seed, 100), vec![0u8; self.size]),
+            3 => {
+                let old = Rng::new(self.seed).bytes(self.size);
+                let mut new = old.clone();
+                new.extend_from_slice(b"one more record");
+                (old, new)
+            }
+            k => {
+                let old = Rng::new(self.seed).bytes(self.size);
+                let mut new = old.clone();
+                let at = if k == 0 { self.size / 2 } else { 0 };
+                if let Some(b) = new.get_mut(at) {
+                    *b ^= 0x55;
+                }
+                (old, new)
+            }
+        }
+    }
 }
 
 fn ab_strings(max: usize, letters: [char; 2]) -> Vec<String> {
@@ -847,6 +901,7 @@ fn main() {
     let mut ck = Check::from_args("C16", "exploration");
     let tier = ck.tier;
     let seed = ck.seed;
+    let big_tier = tier == vh_engine::Tier::Thorough;
     ck.extra(
         "rule",
         "every case = one (old,new) pair x one builder configuration; the patch (if the builder returns one) is applied by the reference bspatch and by 9 library \
@@ -1001,6 +1056,44 @@ fn main() {
         .shards(6),
     );
 
+    // 1e. large inputs: a diff block of megabytes of zeros (deflates better than 1000:1), a zero-filled
+    // new file, control blocks with more than 65,536 entries
+    ck.run(
+        Section::enumerate(
+            "large-inputs",
+            "new = old (incompressible, 3 / 4 / 6 MiB) with one byte changed in the middle, chunked and optimized builder; old = 100 bytes, new = 9,000,000 zero bytes, simple builder; \
+             new = old (1.5 MiB) with one byte changed / with a record appended (98,305 control entries), chunked builder with block 16; new = old (1 MiB) + a record, block 8 (131,073 entries); \
+             new = old (6 and 18 MiB) with its first byte changed, chunked builder (one entry per 256 bytes: 24,577 and 73,729 entries)"
+                .to_string(),
+            move || {
+                let mut v = Vec::new();
+                for size in [3usize << 20, 4 << 20, 6 << 20] {
+                    for builder in [Builder::Chunked, Builder::Optimized] {
+                        v.push(LargeCase { kind: 0, size, builder, block: None, seed: seed ^ size as u64 });
+                    }
+                }
+                v.push(LargeCase { kind: 1, size: 9_000_000, builder: Builder::Simple, block: None, seed });
+                v.push(LargeCase { kind: 0, size: 3 << 19, builder: Builder::Chunked, block: Some(16), seed: seed ^ 16 });
+                v.push(LargeCase { kind: 3, size: 3 << 19, builder: Builder::Chunked, block: Some(16), seed: seed ^ 17 });
+                v.push(LargeCase { kind: 3, size: 1 << 20, builder: Builder::Chunked, block: Some(8), seed: seed ^ 18 });
+                v.push(LargeCase { kind: 2, size: 6 << 20, builder: Builder::Chunked, block: None, seed: seed ^ 2 });
+                v.push(LargeCase { kind: 2, size: 18 << 20, builder: Builder::Chunked, block: None, seed: seed ^ 3 });
+                if big_tier {
+                    v.push(LargeCase { kind: 0, size: 9 << 20, builder: Builder::Chunked, block: None, seed: seed ^ 4 });
+                    v.push(LargeCase { kind: 3, size: 9 << 20, builder: Builder::Chunked, block: Some(64), seed: seed ^ 5 });
+                }
+                Box::new(v.into_iter())
+            },
+            |c: &LargeCase| {
+                let (old, new) = c.pair();
+                let v = check_generated(&old, &new, c.builder, c.block);
+                let ok = v.fail.is_none() && !v.classes.contains(&"builder-refused");
+                v.nontrivial(ok)
+            },
+        )
+        .shards(12),
+    );
+
     // 2. structured pairs around the thresholds of the builders
     const PRE: [usize; 6] = [0, 3, 4, 5, 9, 300];
     const MID: [usize; 8] = [0, 1, 4, 255, 256, 257, 512, 600];
@@ -1046,7 +1139,7 @@ fn main() {
     );
 
     // 3. random edit scripts
-    let big = tier == vh_engine::Tier::Thorough;
+    let big = big_tier;
     ck.run(
         Section::pbt(
             "random-edits",
